@@ -38,6 +38,9 @@
 //!          (15 rmode (child ..)) a real `<ErrorBoundary/>` rendered on the server: rmode 0 to_html,
 //!                               1 in-order stream, 2 out-of-order stream; logs (0 id) for the
 //!                               boundary, (13 ..) per resource, then (0 id) per error thrown
+//!          (19 rmode which local) a real `<Suspense/>` (which 0) / `<Transition/>` (1) streamed in
+//!                               order (rmode 1) / out of order (2); local 1: its children read a
+//!                               LocalResource (the chunk is sent incomplete); logs (0 id) per id taken
 //!          (16) -> (16 b): was the waker handed to the latest poll of the stream woken since?
 //!          (17) take_errors() -> (17 ((boundary id message) ..))
 //!          (18) await_deferred() -> (18 0) none | (18 1) pending | (18 2) ready
@@ -673,6 +676,29 @@ mod boundary {
     fn boundary_view(children: Vec<Child>) -> impl IntoView {
         view! { <ErrorBoundary fallback=|_errors| "fallback">{build_children(children)}</ErrorBoundary> }
     }
+    /// a real `<Suspense/>` (or `<Transition/>`) streamed on the server; with `local` its
+    /// children read a `LocalResource`, which never loads on the server: the component then
+    /// sends its fallback and tells the browser so (`set_incomplete_chunk` under its own id)
+    pub fn render_suspense(transition: bool, local: bool, rmode: i64) {
+        let children = move || {
+            if local {
+                let res = LocalResource::new(|| async { 1u32 });
+                (move || res.get().map(|v| v.to_string())).into_any()
+            } else {
+                "loaded".into_any()
+            }
+        };
+        let view = if transition {
+            view! { <Transition fallback=|| "fallback">{children()}</Transition> }.into_any()
+        } else {
+            view! { <Suspense fallback=|| "fallback">{children()}</Suspense> }.into_any()
+        };
+        match rmode {
+            1 => drop(view.to_html_stream_in_order()),
+            _ => drop(view.to_html_stream_out_of_order()),
+        }
+    }
+
     /// constructs the boundary (and, inside it, its children) and renders it on the server
     pub fn render(children: Vec<Child>, rmode: i64) {
         let view = boundary_view(children).into_view();
@@ -933,6 +959,21 @@ impl Session {
         }
     }
 
+    /// cmd 19: a real `<Suspense/>` / `<Transition/>`; the ids it takes are read off the
+    /// observing context like those of a boundary
+    fn suspense(&mut self, rmode: i64, transition: bool, local: bool) {
+        let spy = Arc::clone(self.spy.as_ref().expect("<Suspense/> needs mode 0 / 1 / 4"));
+        let first = spy.calls.lock().unwrap().len();
+        let owner = self.owner.clone();
+        owner.with(|| boundary::render_suspense(transition, local, rmode));
+        let calls: Vec<(usize, bool)> = spy.calls.lock().unwrap()[first..].to_vec();
+        for (id, hydrating) in calls {
+            self.ids.push(id);
+            self.log.push(Lst(vec![Num(0), dec(id)]));
+            self.browser_repeats(hydrating);
+        }
+    }
+
     fn cmd(&mut self, c: &Sexp) {
         match c.at(0).num() {
             0 => {
@@ -992,6 +1033,7 @@ impl Session {
             }
             14 => self.consume(c.at(1)),
             15 => self.error_boundary(c.at(1).num(), c.at(2)),
+            19 => self.suspense(c.at(1).num(), c.at(2).num() != 0, c.at(3).num() != 0),
             16 => {
                 let woken = self
                     .last_waker
